@@ -14,7 +14,8 @@ RULE = ("a case is a posting script: 0-4 earlier managers encoding other inequal
         "(group size 0-10, k 3-6), pseudo-Boolean inequalities (0-6 terms, coefficients -7..7 incl. 0 and repeated variables, "
         "bound -12..25, five operators, both ROBDD constructions). Oracle: for ALL assignments of the user variables, "
         "'extends to a model of SATManager.clauses' (PySAT on an independent translation) iff direct integer evaluation of "
-        "every accepted constraint holds; then solve()/value()/evalexpr(). non-trivial = at least one constraint that is "
+        "every accepted constraint holds; then solve()/value()/evalexpr(), also solve() between posts and after a solve() that failed "
+        "on a literal whose variable was registered afterwards. non-trivial = at least one constraint that is "
         "neither a tautology nor unsatisfiable on its own; distinct = distinct script.")
 ASSUMPTIONS = [
     "the PySAT solver is trusted (FRAME uses the same); cross-checked by brute force over all CNF variables on small formulas",
@@ -186,6 +187,11 @@ def run_script(c):
                 post_to(hm, p)
             except Exception:
                 pass
+        if len(hposts) % 2:
+            try:
+                hm.solve()  # (an earlier manager that was solved: what it found is its own business)
+            except Exception:
+                pass
     if c["history"]:
         cls.append("history")
     # ---- the probed manager
@@ -304,6 +310,20 @@ def run_script(c):
                 if sm.evalexpr(ineq.lhs) != want:
                     raise Violation("evalexpr(%s) = %r under model %s, direct evaluation %s" % (
                         ineq.lhs.tostr(), sm.evalexpr(ineq.lhs), asg, want), "evalexpr")
+        # another manager with variables of the same names is solved in between (one manager per module is how rect.py works): the model
+        # this manager exposes is still its own
+        other = S.SATManager()
+        for i in range(nvars):
+            x = other.newvar(i, "u")
+            other.add_clause([-x if asg[i] else x])
+        try:
+            other.solve()
+        except Exception as e:
+            raise Violation("solve() of a second manager raised %s: %s" % (type(e).__name__, e), "solve-raised")
+        again = {i: sm.value(users[i]) for i in range(nvars)}
+        if again != asg:
+            raise Violation("after another manager (same variable names, opposite values) was solved, value() of this manager gives %s; "
+                            "its own model was %s; posts=%s" % (again, asg, c["posts"]), "model-shared-between-managers")
         cls.append("sat")
     else:
         cls.append("unsat")
